@@ -124,11 +124,13 @@ func dumpVerdict(ref, got vnode.Snapshot) string {
 // convCase is one execution of C25/C26: a tree, a delivery order (indices may repeat) and the
 // kind of delivery.
 type convCase struct {
-	Shape Shape `json:"shape"`
-	Order []int `json:"order"`
-	Kind  int   `json:"kind"`
-	Trunk int   `json:"trunk,omitempty"` // trunk length when it is not TrunkLen
+	Shape Shape  `json:"shape"`
+	Order []int  `json:"order"`
+	Kind  int    `json:"kind"`
+	Trunk int    `json:"trunk,omitempty"` // trunk length when it is not TrunkLen
 	Fin   *finAt `json:"finalise,omitempty"`
+	// SmallCache: the node keeps 2 blocks in its caches (defCacheSize=2)
+	SmallCache bool `json:"small_cache,omitempty"`
 }
 
 // finAt places the finaliser's verdict in a delivery: before Order[At] is delivered, block Block (which the
@@ -309,12 +311,14 @@ func RunConverge(r *vx.Run, mode string, maxN int, restartAll bool) {
 	}
 	runConverge(r, mode, 1, n, restartAll, TrunkLen-1, &item)
 	runFinalised(r, mode, &item)
+	runSmallCache(r, mode, &item)
 	if maxN > small {
 		runConverge(r, mode, small+1, maxN, restartAll, TrunkLen, &item)
 	}
 }
 
 func runConverge(r *vx.Run, mode string, minN, maxN int, restartAll bool, trunk int, itemp *int) {
+	var cfgEdit func(string) string
 	if raw, ok := r.Replaying(); ok {
 		var c convCase
 		if json.Unmarshal(raw, &c) == nil && c.Trunk != 0 {
@@ -323,8 +327,11 @@ func runConverge(r *vx.Run, mode string, minN, maxN int, restartAll bool, trunk 
 		if c.Fin != nil {
 			trunk = 0
 		}
+		if c.SmallCache {
+			cfgEdit = func(s string) string { return strings.Replace(s, "defCacheSize=128\n", "defCacheSize=2\n", 1) }
+		}
 	}
-	env, err := NewEnvLen(nil, trunk)
+	env, err := NewEnvLen(cfgEdit, trunk)
 	if err != nil {
 		fmt.Println("HARNESS-ERROR", err)
 		r.Note("harness error: %v", err)
